@@ -87,6 +87,9 @@ pub struct PGen<'a> {
     pub counter: usize,
     pub locals: Vec<(String, T)>,
     pub allow_depth_probe: bool,
+    /// names referenced inside function bodies before they are bound (late binding); bound by a
+    /// later statement
+    pub promised: Vec<String>,
 }
 
 const ARITH: &[&str] = &["+", "-", "*", "/", "%"];
@@ -94,7 +97,7 @@ const CMP: &[&str] = &[".<", ".<=", ".==", ".!=", ".>", ".>="];
 
 impl<'a> PGen<'a> {
     pub fn new(rng: &'a mut Rng, prefix: &str) -> Self {
-        PGen { rng, prefix: prefix.to_string(), vars: vec![], counter: 0, locals: vec![], allow_depth_probe: true }
+        PGen { rng, prefix: prefix.to_string(), vars: vec![], counter: 0, locals: vec![], allow_depth_probe: true, promised: vec![] }
     }
 
     fn fresh(&mut self) -> String {
@@ -460,6 +463,14 @@ impl<'a> PGen<'a> {
                 0 => self.leaf(T::Fun),
                 1 | 2 | 3 => {
                     let body = self.with_local("x", T::Num, |g| g.expr(T::Num, d1));
+                    if self.locals.is_empty() && self.rng.chance(1, 6) {
+                        // late binding: the body refers to a name that a later statement binds
+                        let name = if !self.promised.is_empty() && self.rng.chance(1, 2) { self.rng.pick(&self.promised).clone() } else { self.fresh() };
+                        if !self.promised.contains(&name) {
+                            self.promised.push(name.clone());
+                        }
+                        return lam(&["x"], bin("+", body, id(&name)));
+                    }
                     lam(&["x"], body)
                 }
                 4 => {
@@ -489,6 +500,13 @@ impl<'a> PGen<'a> {
     /// One more statement of the program; binds a fresh name unless it is a bare expression.
     pub fn stmt(&mut self, allow_output: bool) -> Vec<(Stmt, &'static str)> {
         let d = self.rng.range(1, 4) as u32;
+        if !self.promised.is_empty() && self.rng.chance(1, 2) {
+            // keep a promise: bind a name that earlier function bodies already refer to
+            let name = self.promised.remove(0);
+            let e = self.expr(T::Num, 1);
+            self.vars.push((name.clone(), T::Num));
+            return vec![(Stmt::Expr(assign(&name, e)), "bind-late")];
+        }
         match self.rng.below(24) {
             0 if self.allow_depth_probe => {
                 // depth probe: recursion to within a few calls of the limit
@@ -520,6 +538,42 @@ impl<'a> PGen<'a> {
                     (Stmt::Expr(assign(&h, E::List(vec![id(&f)]))), "alias-probe-handle"),
                     (Stmt::Expr(assign(&p, shadowed)), "alias-probe-call"),
                 ]
+            }
+            2 if self.rng.chance(1, 2) => {
+                // late-capture probe: g refers to names bound only later; h then captures both g
+                // and those names; h is turned into a value (canonical form / emitted source)
+                let g = self.fresh();
+                let h = self.fresh();
+                let nlate = self.rng.range(1, 3) as usize;
+                let lates: Vec<String> = (0..nlate).map(|_| self.fresh()).collect();
+                let mut gbody = id("y");
+                for (i, n) in lates.iter().enumerate() {
+                    gbody = if i == 0 && self.rng.chance(1, 4) {
+                        bin("+", gbody, dot(E::Rec(vec![RK::Short(n.clone())]), n))
+                    } else {
+                        bin("+", gbody, id(n))
+                    };
+                }
+                let mut out = vec![(Stmt::Expr(assign(&g, lam(&["y"], gbody))), "late-capture-g")];
+                for n in &lates {
+                    let v = self.num_lit();
+                    out.push((Stmt::Expr(assign(n, v)), "bind-late"));
+                    self.vars.push((n.clone(), T::Num));
+                }
+                let mut hbody = call(id(&g), vec![id("x")]);
+                for n in &lates {
+                    hbody = bin("+", hbody, id(n));
+                }
+                self.vars.push((g.clone(), T::Fun));
+                out.push((Stmt::Expr(assign(&h, lam(&["x"], hbody))), "late-capture-h"));
+                self.vars.push((h.clone(), T::Fun));
+                out.push(match self.rng.below(3) {
+                    0 => (Stmt::Expr(call(id("to_string"), vec![E::Lam(vec![], Box::new(id(&h)))])), "late-capture-observe"),
+                    1 => (Stmt::Expr(E::List(vec![id(&h), call(id(&h), vec![num(1)])])), "late-capture-observe"),
+                    _ if allow_output => (Stmt::Output(h.clone(), None), "late-capture-observe"),
+                    _ => (Stmt::Expr(id(&h)), "late-capture-observe"),
+                });
+                out
             }
             2 | 3 | 4 | 5 => {
                 // bare expression (assignment-free): the subject of EvalTwice
